@@ -120,6 +120,18 @@ def run(ctx):
                     ctx.check(s2 in RS, 'S2', 'response handler %s in %s returning a new request ends in a '
                               'request-outstanding state (%s)' % (h.name, s, s2),
                               key=('S2', 'request-from-idle', h.qual, s, s2), site=ctx.site(h, h.node))
+    # the other direction of a collision: while our own request is outstanding (after authentication) the peer's request - which it sent
+    # before it saw ours - is admitted by its handler, not refused as a state error (that would answer INVALID_SYNTAX and delete the IKE_SA)
+    pre = common.pre_auth_states(ctx, S)
+    crossing = [s for s in RS if s not in pre] + ['ESTABLISHED']
+    for ex in ('CREATE_CHILD_SA', 'INFORMATIONAL'):
+        h = reqt.get(ex)
+        ctx.require(h is not None, 'anchor vanished: request handler for %s' % ex)
+        for s in crossing:
+            out = ts.summary(h, s)
+            refused = all(k == ts.check_exc for _, k in out) if out else True
+            ctx.check(not refused, 'S2', 'a %s request that crosses our own exchange (state %s) is admitted by %s' % (ex, s, h.name),
+                      key=('S2', 'crossing-refused', ex, s), site=ctx.site(h, h.node), detail={'outcomes': sorted(out)})
     common.deleted_observed(ctx, esc, 'S2')
 
     # ---------------------------------------------------------------- S3 collision answers
